@@ -87,7 +87,7 @@ Definition starts_at_line_start (s : list byte) (a : nat) : bool :=
 Definition impl_line (s : list byte) (x : nat) : nat := if x =? 0 then 0 else line_idx s (x - 1).
 
 Section Spec.
-Variable width : char -> nat.
+Variable swidth : list char -> nat.
 
 Definition ndigits (n : nat) : nat := match ceil_log10 n with ROk d => d | _ => 0 end.
 Definition num_text (d n : nat) : list char := match fmt_num d n with ROk t => t | _ => [] end.
@@ -113,16 +113,16 @@ Definition spec_span_at (s : list byte) (a b F L : nat) : list piece :=
     let r := row_of s a b F in
     gutter d ++ nl
     ++ render_row d r
-    ++ marker_line d (swidth width (r_before r)) (repeat CARET (swidth width (r_in r)))
+    ++ marker_line d (swidth (r_before r)) (repeat CARET (swidth (r_in r)))
   else
     let rF := row_of s a b F in
     let rL := row_of s a b L in
     let sh := shown F L in
-    marker_line d (swidth width (r_before rF)) [VEE]
+    marker_line d (swidth (r_before rF)) [VEE]
     ++ flat_map (fun i => render_row d (row_of s a b i)) (fst (fst sh))
     ++ (if snd (fst sh) then ellipsis_row d else [])
     ++ flat_map (fun i => render_row d (row_of s a b i)) (snd sh)
-    ++ marker_line d (swidth width (r_before rL ++ r_in rL) - 1) [CARET].
+    ++ marker_line d (swidth (r_before rL ++ r_in rL) - 1) [CARET].
 
 Definition spec_span (s : list byte) (a b : nat) : list piece :=
   match s with
@@ -136,7 +136,7 @@ Definition spec_pos_at (s : list byte) (p i : nat) : list piece :=
   let r := row_of s p p i in
   gutter d ++ nl
   ++ render_pos_row d r
-  ++ marker_line d (swidth width (r_before r)) [CARET].
+  ++ marker_line d (swidth (r_before r)) [CARET].
 
 Definition spec_pos (s : list byte) (p : nat) : list piece :=
   match s with
